@@ -4,6 +4,7 @@ from .lib.match import *
 SELECT = r'^bluetoe::link_layer::ll_data_pdu_buffer::|^bluetoe::link_layer::pdu_ring_buffer::alloc_front$'
 UNITS = lambda u: u in ('w_inst_ll',) or u.startswith('t_link_layer')
 BUF = 'bluetoe::link_layer::ll_data_pdu_buffer::'
+ALSO = [('C18', ('wrap-mark-agreement', 'alloc-within-free-space'))]   # clauses of this property that another module's rules decide: run here as well
 META = {
     'level': 'structural necessary conditions of the SN/NESN acknowledgement scheme, checked on the template pattern and every instantiation: who may write '
              'the two sequence bits, which branch guards the NESN toggle, the delivery to the receive ring and the release of a transmitted PDU, and that every '
